@@ -1,6 +1,8 @@
 ---------------------------- MODULE MC_Restraints ----------------------------
 EXTENDS Restraints, Json
 CONSTANT DevBfs      \* deviation (finding F11, repaired): the cyclic growth tree is the breadth-first tree
+CONSTANT DevSel      \* "none" | "slice" | "index": how the residues of a resname + resid-range directive are found in the node list
+CONSTANT DevImg      \* "none" | "noimage" | "halfshortest": the per-axis separation the walk uses when it applies a distance window
 VARIABLES kind, a
 vars == <<kind, a>>
 Win == [n : 3..7, ref : 0..6, target : 0..6, d : {0, 470, 1200}, tol : {0, 100}, avg : {470, 400}]
@@ -11,7 +13,35 @@ Win2 == [n : {6, 7}, ref : {0, 1}, t1 : 2..6, ref2 : {0, 1, 3}, t2 : 2..6, d1 : 
 Win2Ok == { w \in Win2 : w.t1 < w.n /\ w.t2 < w.n /\ w.t1 # w.ref /\ w.t2 # w.ref2 /\ <<w.ref, w.t1>> # <<w.ref2, w.t2>> /\ <<w.ref, w.t1>> # <<w.t2, w.ref2>> }
 \* several molecule types declared cyclic in one run: each ring gets its own closing pair
 Rings2 == [n : 3..7, n2 : 3..7]
+\* residues of a molecule listed in ANY order of their ids (all 24 orders of 4 ids, consecutive ids or ids with gaps), names in 4 patterns;
+\* every directive (name, half-open id range incl. empty ranges and ranges that reach beyond the ids present) is evaluated on each
+Perm4 == { p \in [1..4 -> 1..4] : \A i, j \in 1..4 : i # j => p[i] # p[j] }
+IdSets == { <<1, 2, 3, 4>>, <<2, 3, 5, 8>> }
+NamePats == { <<"RA", "RA", "RA", "RA">>, <<"RA", "RB", "RA", "RB">>, <<"RA", "RA", "RB", "RB">>, <<"RA", "RB", "RB", "RA">> }
+SelCases == [order : Perm4, ids : IdSets, pat : NamePats]
+ResOf(c) == [i \in 1..4 |-> [rn |-> c.pat[i], resid |-> c.ids[c.order[i]]]]
+DirSeq == LET rng == << <<1, 1>>, <<1, 2>>, <<1, 3>>, <<1, 4>>, <<1, 5>>, <<1, 9>>, <<2, 3>>, <<2, 4>>, <<2, 5>>, <<2, 6>>, <<2, 9>>,
+                        <<3, 3>>, <<3, 4>>, <<3, 5>>, <<3, 6>>, <<3, 9>>, <<4, 5>>, <<4, 9>>, <<5, 6>>, <<5, 9>> >>
+          IN [k \in 1..(2 * Len(rng)) |-> [rn |-> IF k <= Len(rng) THEN "RA" ELSE "RB",
+                                            rlo |-> rng[((k - 1) % Len(rng)) + 1][1], rhi |-> rng[((k - 1) % Len(rng)) + 1][2]]]
+TagI(d, res) == IF DevSel = "slice" THEN TagSliceDev(d, res) ELSE IF DevSel = "index" THEN TagIndexDev(d, res) ELSE TagLoopI(d, res, 1)
+\* how the walk applies a window: boxes with unequal edges, reference residue next to three faces or in the interior, candidates displaced
+\* by less / more than half of the shortest edge, more than half of a long edge and more than a whole short edge, along one or two axes
+Boxes == { <<7000, 7000, 3000>>, <<3000, 5000, 7000>>, <<5000, 7000, 3000>>, <<6000, 6000, 6000>> }
+RefPts == { <<300, 300, 300>>, <<1500, 2500, 1500>> }
+Wins == { [d |-> 4200, tol |-> 200, avg |-> 470], [d |-> 1200, tol |-> 100, avg |-> 470], [d |-> 2500, tol |-> 300, avg |-> 400], [d |-> 0, tol |-> 250, avg |-> 470] }
+ApplyCases == [box : Boxes, ref : RefPts, w : Wins]
+Comp == {0, 450, -1250, 1650, -2450, 3350, 4150}
+DV == { v \in [1..3 -> Comp] : (v[1] = 0 \/ v[2] = 0 \/ v[3] = 0) /\ v # [i \in 1..3 |-> 0] }
+LoOf(w) == w.d - w.tol
+UpOf(w) == w.d + w.tol + w.avg
+\* (a displacement whose image distance falls exactly on a bound is not probed: the code compares floating-point numbers)
+Probes(c) == { v \in DV : Dist2P(v, c.box) # UpOf(c.w) * UpOf(c.w) /\ Dist2P(v, c.box) # LoOf(c.w) * LoOf(c.w) }
+AccP(c, v) == InWindow2(Dist2P(v, c.box), LoOf(c.w), UpOf(c.w))
+AccI(c, v) == InWindow2(Dist2I(DevImg, WrapInto([i \in 1..3 |-> c.ref[i] + v[i]], c.box), c.ref, c.box), LoOf(c.w), UpOf(c.w))
 Init == \/ (kind = "window" /\ a \in WinOk)
+        \/ (kind = "sel" /\ a \in SelCases)
+        \/ (kind = "apply" /\ a \in ApplyCases)
         \/ (kind = "ring" /\ a \in Rings)
         \/ (kind = "window2" /\ a \in Win2Ok)
         \/ (kind = "ring2" /\ a \in Rings2)
@@ -25,10 +55,20 @@ RingLaw == kind = "ring" => /\ Cardinality(RingEdges(a.n) \ TreeEdgeSet(Tree(a.n
                             /\ ClosingPairI(Tree(a.n)) = ClosingPairP(a.n, Tree(a.n))
 Window2Law == kind = "window2" => /\ SameWindow(a.ref, a.t1, a.d1, a.tol, a.avg) /\ SameWindow(a.ref2, a.t2, a.d2, a.tol, a.avg)
 Ring2Law == kind = "ring2" => /\ ClosingPairI(Tree(a.n)) = ClosingPairP(a.n, Tree(a.n)) /\ ClosingPairI(Tree(a.n2)) = ClosingPairP(a.n2, Tree(a.n2))
+\* every directive tags exactly the residues it selects, each once, in node order - whatever the order of the ids along the node list
+SelLaw == kind = "sel" => \A k \in 1..Len(DirSeq) : LET t == TagI(DirSeq[k], ResOf(a)) IN
+             /\ SeqRange(t) = SelNodesP(DirSeq[k], ResOf(a))
+             /\ \A i, j \in 1..Len(t) : i < j => t[i] < t[j]
+\* the walk accepts a candidate iff its true minimum-image distance (over all periodic images, any box shape) is inside the window;
+\* the restrained pair's window is [d - tol, d + tol + one step] (TargetWindow)
+ApplyLaw == kind = "apply" => \A v \in Probes(a) : AccI(a, v) = AccP(a, v)
 PairOf(n) == SetToSortSeq(ClosingPairP(n, DfsTree(n)), <)
 ExportInv == PrintT(<<"CASE", ToJson(
       IF kind = "window" THEN [kind |-> kind, a |-> a, win |-> WindowI(a.ref, a.target, a.d, a.tol, a.avg)]
       ELSE IF kind = "window2" THEN [kind |-> kind, a |-> a, win |-> WindowI(a.ref, a.t1, a.d1, a.tol, a.avg) \o WindowI(a.ref2, a.t2, a.d2, a.tol, a.avg)]
+      ELSE IF kind = "sel" THEN [kind |-> kind, a |-> a, res |-> ResOf(a), dirs |-> DirSeq, tags |-> [k \in 1..Len(DirSeq) |-> TagLoopI(DirSeq[k], ResOf(a), 1)]]
+      ELSE IF kind = "apply" THEN [kind |-> kind, a |-> a, lo |-> LoOf(a.w), up |-> UpOf(a.w),
+                                   probes |-> SetToSeq({ [dv |-> v, acc |-> AccP(a, v), m2 |-> Dist2P(v, a.box)] : v \in Probes(a) })]
       ELSE IF kind = "ring" THEN [kind |-> kind, a |-> a, pair |-> PairOf(a.n), tree |-> DfsTree(a.n)]
       ELSE [kind |-> kind, a |-> a, pair |-> PairOf(a.n), pair2 |-> PairOf(a.n2)])>>)
 =============================================================================
